@@ -156,10 +156,11 @@ Definition pick_dialect (D cD: kv) : kv := match D with KNone => cD | _ => D end
 
 Definition opt_bool (o: option bool) : kv := match o with Some b => KBool b | None => KNone end.
 
-Theorem K9_passed_context : forall cD (car: option bool) cq defs pl wd (ar: option bool) D p,
+Theorem K9_passed_context : forall cD (car: option bool) cq defs pl wd (ar: option bool) D p pl',
   In cD [DRAFT_2020_12; OPEN_API_3_1] -> In D dialects ->
   let c0 := KNs [("dialect", cD); ("definitions", defs); ("all_refs", opt_bool car); ("ref_prefix", opt_str cq); ("plugins", pl)] in
-  exists c, build_ctx c0 wd (opt_bool ar) D (opt_str p) (KTuple []) = Ok c
+  exists c, build_ctx c0 wd (opt_bool ar) D (opt_str p) pl' = Ok c
+    /\ k_getattr2 c (KStr "plugins") = Ok (if k_truthy pl' then pl' else pl)
     /\ k_getattr2 c (KStr "ref_prefix") =
        Ok (KStr (match p with
                  | Some p' => rstrip_slash p'
@@ -172,8 +173,8 @@ Theorem K9_passed_context : forall cD (car: option bool) cq defs pl wd (ar: opti
     /\ k_getattr2 c (KStr "dialect") = Ok (pick_dialect D cD)
     /\ k_getattr2 c (KStr "definitions") = Ok defs.
 Proof.
-  intros cD car cq defs pl wd ar D p HcD HD. unfold dialects in *. simpl in HcD, HD.
+  intros cD car cq defs pl wd ar D p pl' HcD HD. unfold dialects in *. simpl in HcD, HD.
   destruct HcD as [<-|[<-|[]]]; destruct HD as [<-|[<-|[<-|[]]]];
     destruct car as [cb|]; destruct ar as [b|]; destruct cq as [q|]; destruct p as [p'|];
-    unfold build_ctx; simpl; eexists; repeat split; reflexivity.
+    unfold build_ctx; simpl; destruct (k_truthy pl'); simpl; eexists; repeat split; reflexivity.
 Qed.
